@@ -25,6 +25,16 @@ SRC = os.environ.get("DEEPALI_SRC", "")
 VALUE_FREE = {"zeros_like", "ones_like", "empty_like", "full_like", "rand_like", "randn_like", "new_zeros", "new_ones",
               "new_empty", "new_full", "new_tensor"}
 LIKE_FIRST = {"type_as", "to", "expand_as", "view_as", "reshape_as"}
+# piecewise constant functions of their argument: the value still depends on the leaf, the derivative is zero almost everywhere,
+# so for the gradient they act like a cut (coordinate rounding on a differentiable path)
+STEP_FUNCTIONS = {"round", "round_", "floor", "floor_", "ceil", "ceil_", "trunc", "trunc_", "sign", "sign_", "sgn", "heaviside"}
+# conversions of a tensor to Python numbers: the dependence leaves the autograd graph
+ESCAPES = {"item", "tolist", "__float__", "__int__", "__bool__", "numpy"}
+
+
+# deepali functions in which a leaf-dependent value is turned into a Python number BY DESIGN (not part of the differentiated map):
+# consistency assertions and range / normalisation constants documented as such
+ESCAPE_OK = set()
 
 
 def site():
@@ -45,6 +55,7 @@ class Flow(TorchFunctionMode):
         self.keep = []                      # keep tensors alive: ids stay unique
         self.v = {}                         # id -> frozenset of leaf indices (value dependence)
         self.c = {}                         # id -> {leaf index: set(sites)} (dependence that crossed a cut)
+        self.escapes = {}                   # leaf index -> sites where a float tensor depending on it became a Python number
         self.leaf_index = {}
         for i, t in enumerate(leaves):
             self.v[id(t)] = frozenset([i])
@@ -83,6 +94,13 @@ class Flow(TorchFunctionMode):
     def __torch_function__(self, func, types, args=(), kwargs=None):
         out = func(*args, **(kwargs or {}))
         name = getattr(func, "__name__", "")
+        if name in ESCAPES and args and isinstance(args[0], torch.Tensor) and args[0].is_floating_point():
+            v0 = self.v.get(id(args[0]), frozenset())
+            if v0:
+                where0 = site() + ":" + name
+                if where0.split(":")[0] not in ESCAPE_OK:
+                    for k in v0:
+                        self.escapes.setdefault(k, set()).add(where0)
         if name in LIKE_FIRST and args:
             v, c = self.marks(args[:1], None)      # x.type_as(y), x.to(y), x.expand_as(y): the value comes from x only
         else:
@@ -104,7 +122,7 @@ class Flow(TorchFunctionMode):
                 continue
             self.keep.append(o)
             cv = dict((k, set(s)) for k, s in c.items())
-            if v and not o.requires_grad and getattr(func, "__name__", "") not in VALUE_FREE:
+            if v and (not o.requires_grad or name in STEP_FUNCTIONS) and name not in VALUE_FREE:
                 where = where or (site() + ":" + getattr(func, "__name__", "?"))
                 for k in v:
                     cv.setdefault(k, set()).add(where)
@@ -130,7 +148,7 @@ def trace(op, D, seed):
     c = m.c.get(id(y), {})
     rows = []
     for i, t in enumerate(leaves):
-        rows.append((i, tuple(t.shape), i in v, sorted(c.get(i, []))))
+        rows.append((i, tuple(t.shape), i in v, sorted(set(c.get(i, [])) | set(m.escapes.get(i, [])))))
     return rows, bool(y.requires_grad)
 
 
